@@ -927,7 +927,12 @@ func gen(a Args, out *Out) {
 				}
 				data = craft(ver, typ, fl, byte(nref), seq, node, cmd, append(append([]byte(nil), f[hs:hs+4*nref]...), body[:cut]...), -1, false)
 				cidx = 0
-				kind, expect = "zlib-truncated", 1
+				// (a frame with an integer body may be too short to have been compressed: then
+				// the cut body is just another varint, nothing to refuse)
+				kind = "body-cut"
+				if fl&1 != 0 {
+					kind, expect = "zlib-truncated", 1
+				}
 			case 6: // error flag, body is an arbitrary varint (also over-long ones)
 				b := rng.Bytes(1 + rng.Intn(12))
 				if rng.Bool() {
